@@ -86,8 +86,9 @@ class CaseResult:
                 'inconclusive': self.inconclusive, 'ambiguous': dict(self.ambiguous)}
 
 
-class CaseTimeout(Exception):
-    pass
+class CaseTimeout(KeyboardInterrupt):
+    """raised from the SIGALRM handler; derives from KeyboardInterrupt so that the event loop and
+    tornado coroutines (which swallow Exception) let it through"""
 
 
 def _alarm(signum, frame):
@@ -115,6 +116,7 @@ def worker_main(mod, tier, seed, shard, nshards, out_path, case_timeout):
         try:
             res = mod.run_case(spec)
         except CaseTimeout:
+            signal.setitimer(signal.ITIMER_REAL, 0)
             agg['inconclusive']['watchdog'] += 1
             agg['errors'].append({'spec': spec, 'error': 'wall-clock watchdog (%ss)' % case_timeout})
             continue
